@@ -8,6 +8,9 @@
 # copied to a scratch directory outside /repo and /verif, instrumented there (map-order,
 # disk and progress seams; DESIGN.md 3.1), and the simulator is linked against that copy.
 # Exit codes: 0 held / 1 VIOLATION printed / 2 infrastructure (tree does not build, ...).
+# (the whole script is one function so that bash parses it completely before running:
+#  editing the file while a long check runs cannot corrupt that run)
+main() {
 set -u
 export GOFLAGS=-mod=mod GOPROXY=off GOSUMDB=off GOTOOLCHAIN=local
 VERIF="$(cd "$(dirname "$0")" && pwd)"
@@ -95,4 +98,7 @@ mkdir -p "$EVD" "$RPD" "$scratch/work"
 VERIF_CLI="$scratch/poryscript-cli" "$scratch/verifsim" run -prop "$prop" -tier "$tier" -seed "$SEED" -workers "$WORKERS" \
   -evidence "$EVD/$prop.json" -replays "$RPD" -known "$VERIF/known_findings.json" \
   -scratch "$scratch/work" -plain "$scratch/verifsim-plain" -instr-report "$scratch/instrument.json" ${VERIF_COUNT:+-count "$VERIF_COUNT"}
+return $?
+}
+main "$@"
 exit $?
